@@ -4,10 +4,17 @@ import (
 	"context"
 	"errors"
 	"fmt"
+	tpb "github.com/fullstorydev/grpchan/grpchantesting"
+	"github.com/fullstorydev/grpchan/httpgrpc"
+	"github.com/fullstorydev/grpchan/inprocgrpc"
+	"io"
 	"math/rand"
 	"net/http"
+	"net/http/httptest"
+	"net/url"
 	"strings"
 	"sync/atomic"
+	"time"
 
 	"google.golang.org/grpc"
 	"google.golang.org/grpc/credentials"
@@ -100,6 +107,91 @@ func checkC13(e *core.Env) {
 				}
 			}
 		}
+	}
+	// calls that carry no metadata at all (no caller metadata, no credentials or credentials with an empty
+	// map): the handler's peer is there all the same
+	{
+		var sawPeer []bool
+		probeDesc := &grpc.ServiceDesc{ServiceName: "c13.Probe", HandlerType: (*interface{})(nil),
+			Methods: []grpc.MethodDesc{{MethodName: "U", Handler: func(srv interface{}, ctx context.Context, dec func(interface{}) error, _ grpc.UnaryServerInterceptor) (interface{}, error) {
+				if err := dec(new(tpb.Message)); err != nil {
+					return nil, err
+				}
+				p, ok := peer.FromContext(ctx)
+				sawPeer = append(sawPeer, ok && p != nil && p.Addr != nil)
+				return &tpb.Message{}, nil
+			}}},
+			Streams: []grpc.StreamDesc{{StreamName: "S", ServerStreams: true, ClientStreams: true, Handler: func(srv interface{}, st grpc.ServerStream) error {
+				p, ok := peer.FromContext(st.Context())
+				sawPeer = append(sawPeer, ok && p != nil && p.Addr != nil)
+				return nil
+			}}}}
+		ch := &inprocgrpc.Channel{}
+		ch.RegisterService(probeDesc, struct{}{})
+		for ci, copts := range [][]grpc.CallOption{nil, {grpc.PerRPCCredentials(&testCreds{md: map[string]string{}})}} {
+			for _, stream := range []bool{false, true} {
+				sawPeer = nil
+				caseNo++
+				e.Begin("no-metadata", caseNo, fmt.Sprintf("creds=%d stream=%v", ci, stream))
+				var err error
+				if !stream {
+					err = ch.Invoke(context.Background(), "/c13.Probe/U", &tpb.Message{}, new(tpb.Message), copts...)
+				} else {
+					var st grpc.ClientStream
+					st, err = ch.NewStream(context.Background(), &probeDesc.Streams[0], "/c13.Probe/S", copts...)
+					if err == nil {
+						st.CloseSend()
+						err = st.RecvMsg(new(tpb.Message))
+						if err == io.EOF {
+							err = nil
+						}
+					}
+				}
+				e.Eval(fmt.Sprintf("no-metadata|%d|%v", ci, stream), true)
+				if err != nil || len(sawPeer) != 1 {
+					e.Violate("peer/no-metadata/call-failed", fmt.Sprintf("in-process call without any metadata (stream=%v): err=%v, handler runs=%d", stream, err, len(sawPeer)), nil)
+				} else if !sawPeer[0] {
+					e.Violate("peer/no-metadata/handler-peer-missing", fmt.Sprintf("in-process call without any metadata (stream=%v, empty credentials=%v): the handler's context has no peer", stream, ci == 1), nil)
+				}
+			}
+		}
+	}
+	// an https front end that redirects to a plain-http address: credentials that require transport security
+	// never arrive there
+	{
+		var plainHits, credHits atomic.Int32
+		plainSrv := httptest.NewServer(http.HandlerFunc(func(w http.ResponseWriter, r *http.Request) {
+			plainHits.Add(1)
+			if r.Header.Get("Authorization") != "" {
+				credHits.Add(1)
+			}
+			w.WriteHeader(200)
+		}))
+		front := httptest.NewTLSServer(http.HandlerFunc(func(w http.ResponseWriter, r *http.Request) {
+			http.Redirect(w, r, plainSrv.URL+r.URL.Path, pick(rand.New(rand.NewSource(int64(plainHits.Load()))), 307, 308))
+		}))
+		fu, _ := url.Parse(front.URL)
+		ch := &httpgrpc.Channel{Transport: front.Client().Transport, BaseURL: fu}
+		creds := grpc.PerRPCCredentials(&testCreds{secure: true, md: map[string]string{"authorization": "Bearer secret"}})
+		for _, stream := range []bool{false, true} {
+			caseNo++
+			e.Begin("redirect", caseNo, fmt.Sprint(stream))
+			ctx, cancel := context.WithTimeout(context.Background(), 5*time.Second)
+			if !stream {
+				ch.Invoke(ctx, Unary.Method(), &tpb.Message{}, new(tpb.Message), creds)
+			} else if st, err := ch.NewStream(ctx, ServerStream.StreamDesc(), ServerStream.Method(), creds); err == nil {
+				st.SendMsg(&tpb.Message{})
+				st.CloseSend()
+				st.RecvMsg(new(tpb.Message))
+			}
+			cancel()
+			e.Eval(fmt.Sprintf("redirect|%v", stream), true)
+		}
+		if credHits.Load() > 0 || plainHits.Load() > 0 {
+			e.Violate("creds/redirect-to-plain", fmt.Sprintf("the https front end answered with a redirect to an http:// address: %d request(s) were sent there, %d of them with the credentials", plainHits.Load(), credHits.Load()), nil)
+		}
+		front.Close()
+		plainSrv.Close()
 	}
 	e.Sample(map[string]any{"cells": caseNo, "example": "http-server(https)|secure=true|unary|creds=overlap|opts=true: handler must see caller values then credential values; grpc.Peer target must carry credentials.TLSInfo"})
 }
